@@ -358,6 +358,17 @@ def apply_post(env, q, post, E):
     if kind == 'slice_unordered': return 'N', len(q[post[1]:post[2]])
     if kind == 'page': return 'O', norm(q.order_by(1).page(post[1], post[2]))
     if kind == 'limit': return 'O', norm(list(q.order_by(1).limit(post[1], offset=post[2])))
+    if kind == 'aggr':
+        # any aggregate with explicit keyword arguments as written by the user: ['aggr', via, name, kwargs]
+        # via: None | 'distinct' | 'without_distinct' (query-level flag applied first)
+        if post[1] == 'distinct': q = q.distinct()
+        elif post[1] == 'without_distinct': q = q.without_distinct()
+        v = getattr(q, post[2])(**post[3])
+        if post[2] == 'group_concat' and isinstance(v, str): return 'O', [len(v), ''.join(sorted(v))]
+        return 'O', norm(v)
+    if kind == 'fetch_kw': return 'O', norm(q.order_by(1).fetch(**post[1]))
+    if kind == 'limit_kw': return 'O', norm(list(q.order_by(1).limit(**post[1])))
+    if kind == 'page_kw': return 'O', norm(q.order_by(1).page(post[1], **post[2]))
     if kind == 'count': return 'O', q.count()
     if kind == 'count_distinct': return 'O', q.count(distinct=True)
     if kind == 'exists': return 'O', q.exists()
@@ -564,6 +575,18 @@ def ref_value(step, mirror, env):
     except Exception: return None
     ordered = sorted(sel, key=lambda v: (v[2] if isinstance(v, list) else v))
     kind = post[0]
+    if kind == 'aggr':
+        # only for the plain one-column int queries, whose un-deduplicated values are known
+        if post[1] is not None or fn not in ('getattr_', 'ids_age_ge') or (fn == 'getattr_' and args[0] not in ('age', 'id')): return None
+        allv = [r[args[0]] for r in rows] if fn == 'getattr_' else [r['id'] for r in rows if r['age'] >= args[0]]
+        name, kw = post[2], post[3]
+        d = kw.get('distinct')
+        if name == 'count': vals = allv if d is False else sorted(set(allv)); return ('ok', len(vals))
+        if name == 'sum': vals = sorted(set(allv)) if d else allv; return ('ok', sum(vals))
+        if name == 'avg': vals = sorted(set(allv)) if d else allv; return ('ok', round(sum(vals) / len(vals), 9) if vals else None)
+        if name == 'min': return ('ok', min(allv) if allv else None)
+        if name == 'max': return ('ok', max(allv) if allv else None)
+        return None
     if kind == 'all': return ('ok', unordered(sel))
     if kind in ('ordered', 'ordered_attr'):
         if kind == 'ordered_attr' and not (sel and isinstance(sel[0], list) or not sel): return None
@@ -625,8 +648,28 @@ def fix_db(v, db):
 POSTS = (['all'], ['all'], ['ordered'], ['ordered'], ['count'], ['exists'], ['first'], ['len'], ['iter'], ['get_sql'],
          ['without_distinct'])
 
+def g_aggr(rng, numeric=True):
+    """An aggregate call with explicit keyword arguments (absent / None / False / True are different spellings)."""
+    name = rng.choice(('count', 'count', 'count', 'sum', 'avg', 'min', 'max', 'group_concat') if numeric else ('count', 'count', 'min', 'max', 'group_concat'))
+    kw = {}
+    if name in ('count', 'sum', 'avg', 'group_concat'):
+        d = rng.choice(('absent', None, False, True))
+        if d != 'absent': kw['distinct'] = d
+    if name == 'group_concat':
+        sp = rng.choice(('absent', ',', ';', '', None, '-'))
+        if sp != 'absent': kw['sep'] = sp
+    return ['aggr', rng.choice((None, None, None, 'distinct', 'without_distinct')), name, kw]
+
+def g_method_kw(rng):
+    r = rng.random()
+    if r < 0.4: return ['fetch_kw', rng.choice(({}, {'limit': 2}, {'limit': 2, 'offset': 1}, {'limit': None, 'offset': 2}, {'offset': 1}, {'limit': 3, 'offset': 0}, {'limit': 3, 'offset': None}))]
+    if r < 0.7: return ['limit_kw', rng.choice(({'limit': 2}, {'limit': 2, 'offset': 1}, {'limit': None, 'offset': 1}, {'limit': 3, 'offset': None}, {}))]
+    return ['page_kw', rng.choice((1, 2)), rng.choice(({}, {'pagesize': 2}, {'pagesize': 3}, {'pagesize': 10}))]
+
 def g_post(rng, scalar_int=False, entity=True):
     r = rng.random()
+    if r < 0.10: return g_aggr(rng, numeric=scalar_int or not entity)
+    if r < 0.14: return g_method_kw(rng)
     if r < 0.55: return list(rng.choice(POSTS))
     if r < 0.75:
         a = rng.choice((0, 0, 1, 2, 3)); return ['slice', a, a + rng.choice((0, 1, 2, 3, 5))]
@@ -742,7 +785,7 @@ RAW_TEXTS = [
 
 def g_themed(rng):
     """Short histories aimed at one cache-key hazard each (mixed into the random ones)."""
-    theme = rng.choice(('qr', 'rawdml', 'result', 'result', 'types', 'types', 'limits', 'two_db', 'extr', 'adapt', 'global', 'shared', 'kwnone', 'rawfrag'))
+    theme = rng.choice(('qr', 'rawdml', 'result', 'result', 'types', 'types', 'limits', 'two_db', 'extr', 'adapt', 'global', 'shared', 'kwnone', 'rawfrag', 'aggr', 'aggr'))
     J = lambda x: json.loads(json.dumps(x))
     steps = []
     if theme == 'qr':
@@ -847,6 +890,24 @@ def g_themed(rng):
             steps.append({'k': 'chain', 'db': rng.choice((1, 1, 2)), 'fn': 'raw_frag_dyn',
                           'args': [rng.choice(('p.age > $x', 'p.age < $x', 'p.age between $x and $y', 'p.id = $y', 'p.age > $x and p.id <> $$y')), rng.choice(INTS), rng.choice((1, 2, 40, 60))],
                           'ops': [], 'post': J(post)})
+    elif theme == 'aggr':
+        # ONE query (same code object, same argument types) aggregated / fetched through differently spelled calls
+        fn = rng.choice(('getattr_', 'getattr_', 'name_slice', 'ids_age_ge', 'name_in', 'concat', 'level_gt', 'nick_eq', 'born_lt',
+                         'age_gt', 'all_people', 'two_params', 'name_index', 'cnt_by_group'))
+        spec = next(z for z in QF if z[0] == fn)
+        db = 1 if rng.random() < 0.8 else 2
+        args = {'getattr_': [rng.choice(('age', 'age', 'name', 'nick', 'score', 'group'))], 'name_slice': [0, rng.choice((1, 2))],
+                'ids_age_ge': [rng.choice((1, 25))], 'name_in': [['list', ['Ann', 'Bob', 'Cid', 'Eve']]], 'concat': ['!'],
+                'level_gt': [0], 'nick_eq': [rng.choice(('', None))], 'born_lt': [['date', [2000, 1, 1]]], 'age_gt': [rng.choice((1, 30))],
+                'all_people': [], 'two_params': [1, ''], 'name_index': [0], 'cnt_by_group': [1]}[fn]
+        base = {'k': 'chain', 'db': db, 'fn': fn, 'args': args, 'ops': [], 'post': None}
+        numeric = fn in ('getattr_', 'ids_age_ge', 'name_in', 'level_gt', 'nick_eq', 'born_lt')
+        for _ in range(rng.randrange(5, 11)):
+            st = J(base)
+            st['post'] = g_aggr(rng, numeric) if rng.random() < 0.8 else g_method_kw(rng)
+            steps.append(st)
+            if rng.random() < 0.15:
+                steps.append({'k': 'set', 'db': db, 'pk': rng.choice((1, 2, 3)), 'attr': 'age', 'val': rng.choice((31, 40, 99))})
     elif theme == 'global':
         q = {'k': 'chain', 'db': rng.choice((1, 1, 2)), 'fn': 'func_global', 'args': [], 'ops': [], 'post': list(rng.choice((['ordered'], ['count'], ['all'])))}
         steps = [q]
